@@ -88,7 +88,7 @@ class Ctx:
                     self.vacuous.append(a)
         return res
 
-    def judge(self, client: str, cases: list, invariants, consts=None, workers=16, tag=None, timeout=900):
+    def judge(self, client: str, cases: list, invariants, consts=None, workers=16, tag=None, timeout=3600):
         """Batch judgement by TLC (spec/lib/Judge.tla idiom): `client` is a module that EXTENDS Judge and
         defines the invariants; returns TLC's verdict records [{case (1-based), clause}] and Tell records."""
         tag = tag or f"j{len(self.tlc_runs)}"
